@@ -716,6 +716,7 @@ class Interp:
             return []
         except Exception as e:
             self.pool.append(None)
+            self.tags |= v.tags | {x for w in extra for x in w.tags}
             if v.tainted or v.nmut:
                 return [(util.exc_bucket(f"derive-raises-after-mutation|{kind}", e), util.exc_detail(e))]
             self.rejects.append(f"derive-raises-without-mutation:{kind}:{type(e).__name__}")
@@ -1400,7 +1401,8 @@ def _gen_value(D_, it, i, t, key, sel):
     vs = [1 if D_.chance(1, 5) else n for n in vs]
     if 0 in sel and not D_.chance(1, 10):
         vs = [min(n, 1) for n in vs]  # dask_array only takes unit-size values for an empty selection
-    if k == "array" and sel and not any(isinstance(e, dict) and "npfull" in e for e in tup) and D_.chance(1, 10):
+    bool_key_1d = len(t.shape) == 1 and any(isinstance(e, dict) and ("npfull" in e or "boolarr" in e) for e in tup)
+    if k == "array" and sel and not bool_key_1d and not any(isinstance(e, dict) and "npfull" in e for e in tup) and D_.chance(1, 10):
         if _steer(KF_LEADING_ONE):
             it.excluded.append(KF_LEADING_ONE)
         else:
